@@ -410,6 +410,9 @@ func (c01) Generate(r *sim.Rand, tier string) *sim.Scenario {
 		}
 	}
 	sc.Data["roots"] = roots
+	if nclients >= 2 && r.Bool(0.5) {
+		sc.Cfg["peek"] = 1
+	}
 	var order []float64
 	for _, c := range r.Perm(nclients) {
 		order = append(order, float64(c))
@@ -934,6 +937,16 @@ func (prop c01) Execute(sc *sim.Scenario) *sim.Outcome {
 			if apps > 0 {
 				out.Probes["rule-probe-available"] = 1
 			}
+		}
+		if sc.Cfg["peek"] == 1 {
+			// a caller looking at the gradients between two back-propagations
+			// (a pure read) must not change what the next one leaves behind
+			sim.Pause()
+			for _, id := range p.order {
+				readGrad(main.pool.T[id])
+			}
+			sim.Resume()
+			out.Faults["reorder/gradients-read-between-backprops"]++
 		}
 		if main.cmax > 0 {
 			ratio := int(used / (uint64(edges+1) * main.cmax))
